@@ -325,7 +325,11 @@ def run_check(mod, prop, tier, seed, replay_path=None):
     try:
         if replay_path:
             data = json.load(open(replay_path))
-            f = mod.replay(ctx, data.get("data", {})) if hasattr(mod, "replay") else None
+            if data.get("data", {}).get("kind") == "graphcorr":
+                from . import graphcorr
+                f = graphcorr.replay_case(data["data"])
+            else:
+                f = mod.replay(ctx, data.get("data", {})) if hasattr(mod, "replay") else None
             if f is None:
                 print(f"replay: the stored input no longer fails ({data.get('what')})")
                 return 0
@@ -403,6 +407,10 @@ def run_check(mod, prop, tier, seed, replay_path=None):
             except Exception as e:
                 ctx.notes.append("search crashed: " + traceback.format_exc()[-1500:])
                 findings = []
+            # failing inputs already established during the correspondence run (a real call that raises where the model and
+            # its totality theorem give a value)
+            have = {f.signature for f in findings}
+            findings = [f for f in getattr(ctx, "concrete", []) if f.signature not in have][:3] + findings
             known0 = load_known()
             unexplained = bool(ctx.broken) or any(not k.startswith("property:") for k, _ in ctx.disagreements)
             fresh = [f for f in findings if f.no_input or not any(
